@@ -31,7 +31,7 @@ fn main() {
     }
     let mut shard = Shard {
         check: args[1].to_lowercase(), idx: 0, n: 1, seed: 1, tier: Tier::Quick, out: PathBuf::from("/dev/null"), resume: 0,
-        budget: Duration::from_secs(20), replay: None, start: Instant::now(),
+        budget: Duration::from_secs(20), replay: None, start: Instant::now(), only_case: None,
     };
     let mut i = 2;
     while i < args.len() {
@@ -64,7 +64,49 @@ fn main() {
         campaign::with_acc(|a| a.flush());
         std::process::exit(3);
     })));
+    // hang watchdog: a single case normally costs micro- to milliseconds of CPU; a case that has burnt 60 CPU-seconds
+    // (>= 10^4 x the normal cost; CPU time, never wall time) without returning is a library call that does not
+    // return: the verdict is written to a side file (the accumulator may be locked by the hung thread) and the
+    // process exits with 3 so that the dispatcher resumes the shard after the failing case
+    if !cfg!(miri) {
+        let sh = shard.clone();
+        std::thread::spawn(move || hang_watchdog(sh));
+    }
     let code = checks::run(&shard);
     campaign::with_acc(|a| { a.done = true; a.flush(); });
     std::process::exit(code);
+}
+
+fn cpu_ticks() -> u64 {
+    let stat = std::fs::read_to_string("/proc/self/stat").unwrap_or_default();
+    let rest = stat.rfind(')').map(|i| &stat[i + 2..]).unwrap_or("");
+    let f: Vec<&str> = rest.split(' ').collect();
+    f.get(11).and_then(|x| x.parse::<u64>().ok()).unwrap_or(0) + f.get(12).and_then(|x| x.parse::<u64>().ok()).unwrap_or(0)
+}
+fn hang_watchdog(shard: Shard) {
+    use std::sync::atomic::Ordering::Relaxed;
+    let limit_ticks: u64 = std::env::var("VH_HANG_CPU_S").ok().and_then(|x| x.parse().ok()).unwrap_or(60) * 100;
+    let mut last_seq = campaign::CASE_SEQ.load(Relaxed);
+    let mut cpu0 = cpu_ticks();
+    loop {
+        std::thread::sleep(Duration::from_millis(500));
+        let seq = campaign::CASE_SEQ.load(Relaxed);
+        let cpu = cpu_ticks();
+        if seq != last_seq { last_seq = seq; cpu0 = cpu; continue; }
+        if cpu.saturating_sub(cpu0) >= limit_ticks {
+            let idx = campaign::CUR_INDEX.load(Relaxed);
+            let prop = checks::common::current_prop();
+            let case = match campaign::ACC.try_lock() { Ok(g) => g.as_ref().and_then(|a| a.current_case.clone()), Err(_) => None };
+            let mut cj = util::J::obj().set("kind", util::J::s("case_index")).set("check", util::J::s(shard.check.clone())).set("seed", util::J::Int(shard.seed as i64))
+                .set("case_index", if idx == u64::MAX { util::J::Null } else { util::J::Int(idx as i64) });
+            if let Some(c) = case { cj = cj.set("case_in_progress", c); }
+            let v = util::J::obj().set("property", util::J::s(prop)).set("clause", util::J::s("no_return_within_cpu_budget"))
+                .set("detail", util::J::s(format!("a library call did not return: the case in progress (index {idx} of check {}) has burnt {} CPU-seconds (normal cost: milliseconds)", shard.check, (cpu - cpu0) / 100)))
+                .set("facts", util::J::obj().set("cpu_s", util::J::Int(((cpu - cpu0) / 100) as i64))).set("case", cj)
+                .set("next_case", util::J::Int(if idx == u64::MAX { 0 } else { idx as i64 + 1 }));
+            let _ = std::fs::write(shard.out.with_extension("hang"), v.render());
+            if let Ok(g) = campaign::ACC.try_lock() { if let Some(a) = g.as_ref() { a.flush(); } }
+            std::process::exit(3);
+        }
+    }
 }
